@@ -282,3 +282,34 @@ func (c badComplement) IsEdge(i, j int) bool { return !c.g.IsEdge(i, j) }
 type goodComplement struct{ g *DenseGraph }
 
 func (c goodComplement) IsEdge(i, j int) bool { return i != j && !c.g.IsEdge(i, j) }
+
+// REGROW
+func (g *DenseGraph) GoodGrowEdges(extra int) {
+	g.NumberOfEdges += 0
+	g.DegreeSequence = append(g.DegreeSequence, 0)
+	old := len(g.Edges)
+	newSize := old + extra
+	if cap(g.Edges) >= newSize {
+		g.Edges = g.Edges[:newSize]
+		for i := old; i < newSize; i++ {
+			g.Edges[i] = 0
+		}
+	} else {
+		tmp := make([]byte, newSize)
+		copy(tmp, g.Edges)
+		g.Edges = tmp
+	}
+}
+
+func (g *DenseGraph) BadGrowEdgesStale(extra int, set []int) {
+	old := len(g.Edges)
+	newSize := old + extra
+	if cap(g.Edges) >= newSize {
+		g.Edges = g.Edges[:newSize]
+	} else {
+		g.Edges = append(g.Edges, make([]byte, extra)...)
+	}
+	for _, v := range set {
+		g.Edges[old+v] = 1
+	}
+}
